@@ -27,6 +27,7 @@ PROPS = {
         "kind": "verus",
         "units": [{"name": "ident"}],
         "search": True,
+        "bounded_standin": "identifier positions reached through the call graph (not under contract): 15 statement shapes x 3 backends x names over a 10-symbol alphabet up to length 3, incl. user Iden impls writing char-wise",
         "technique": "Verus contracts: Iden::prepare / quoted / to_string (trait defaults) and every raw quoting site (any write! mentioning .left(), discovered on each run and wrapped as a function) emit one token that the quoted-identifier lexer decodes to exactly the name",
         "trusted_base": TB_COMMON + [TB_FMT, TB_STR,
             "R-strfn: std::str::from_utf8(&[b]).unwrap() is the one-character string of an ASCII byte and panics for b >= 0x80; str::repeat(2) is s+s; str::replace with a one-character pattern replaces that character; char::from(u8) is the Latin-1 code point (validated natively each run)",
@@ -74,6 +75,7 @@ PROPS = {
         "kind": "verus",
         "units": [{"name": "writer"}],
         "search": True,
+        "bounded_standin": "statement renderers other than LIMIT/OFFSET are abstract in unit writer: corpus of ~530 nested statements x 3 backends, placeholder/value count, numbering, order",
         "technique": "Verus contracts: SqlWriterValues as a data structure with abstraction relation rel(writer, trace); every operation extends the trace; closed-form lemma for numbering / pairing; clause renderers as trace transformers",
         "trusted_base": TB_COMMON + [TB_FMT,
             "R-dyn: `&mut dyn SqlWriter` / `&dyn QueryBuilder` replaced by generic parameters; both SqlWriter impls are verified against one trait contract",
@@ -90,6 +92,7 @@ PROPS = {
         "kind": "verus",
         "units": [{"name": "writer"}],
         "search": True,
+        "bounded_standin": "renderers that inline values without going through the writer (ORDER BY FIELD, constants): corpus of ~530 nested statements x 3 backends, inline == parameterised with placeholders substituted",
         "technique": "Verus contracts: String and SqlWriterValues refine one trace (same trait contract); to_string / build / build_any / build_collect* and both #[inherent] forwards of each statement type are proved to run the same renderer; lemma: inline == parameterised with placeholders substituted",
         "trusted_base": TB_COMMON + [TB_FMT,
             "R-dyn: dyn parameters replaced by generics", "R-inherent: #[inherent] re-exports trait methods as inherent methods without changing them",
@@ -103,6 +106,7 @@ PROPS = {
         "kind": "verus",
         "units": [{"name": "cond"}],
         "search": True,
+        "bounded_standin": "rendered predicate of the real builder parsed and compared with Kleene semantics for condition trees up to depth 3 and histories of up to 2 calls, 27 valuations",
         "technique": "Verus contracts with Kleene three-valued semantics as spec functions: every rewrite in Condition::add / ConditionHolder::add_condition / to_simple_expr preserves the meaning for all trees and all valuations; empty holder renders nothing",
         "trusted_base": TB_COMMON + [TB_FMT,
             "R-opaque: payload types of SimpleExpr that the extracted code only moves (ColumnRef, FunctionCall, SubQueryStatement, ...) are opaque",
@@ -130,6 +134,7 @@ PROPS = {
         "kind": "verus",
         "units": [{"name": "escape"}],
         "search": True,
+        "bounded_standin": "value_to_string on the real backends for all strings over a 19-symbol escape-relevant alphabet up to length 3, 25 chars, all single bytes",
         "technique": "Verus contracts: every literal writer's output, followed by any non-quote text, lexes under the engine's lexer (spec functions written from the MySQL / PostgreSQL / SQLite manuals) to exactly one token decoding to the supplied value",
         "trusted_base": TB_COMMON + [TB_FMT, TB_STR,
             "R-fmt {:02X}: two upper-case hex digits, high nibble first (validated natively for all 256 bytes each run)",
